@@ -48,8 +48,12 @@ func ZzC13() {
 		peers[i] = peer.ID("peer" + zzItoa(i))
 		pfx := "p" + zzItoa(i) + "."
 		a := &zzPeerAnswer{kind: zz.Choice(pfx+"kind", 3)}
+		simple := zz.Param("SIMPLE", 0) == 1 // short catalogue for the units with more peers: one response, honest / NOT_FOUND / invalid
 		if a.kind == 2 {
 			a.n = zz.Choice(pfx+"n", 3)
+			if simple {
+				a.n = 1
+			}
 			a.valid = a.n > 0
 			for k := 0; k < a.n; k++ {
 				// one defect per response (catalogue); later responses use a shorter catalogue
@@ -58,7 +62,13 @@ func ZzC13() {
 					nd = 4
 				}
 				a.status[k] = int32(p2p_pb.StatusCode_OK)
-				switch zz.Choice(pfx+"defect"+zzItoa(k), nd) {
+				defect := 0
+				if simple {
+					defect = []int{0, 1, 3}[zz.Choice(pfx+"defect"+zzItoa(k), 3)]
+				} else {
+					defect = zz.Choice(pfx+"defect"+zzItoa(k), nd)
+				}
+				switch defect {
 				case 0: // honest
 				case 1:
 					a.status[k] = int32(p2p_pb.StatusCode_NOT_FOUND)
@@ -80,6 +90,12 @@ func ZzC13() {
 				}
 			}
 		}
+		if a.kind == 2 && a.n > 0 {
+			a.firstHdr = reqID
+			if a.wrongID[0] {
+				a.firstHdr = 100*(i+1) + reqID
+			}
+		}
 		answers[i] = a
 	}
 	const invalidMark = 666 // carried in the encoded header: Validate rejects exactly these
@@ -97,6 +113,7 @@ func ZzC13() {
 			}
 		}
 		a := answers[i]
+		zz.Gate("answer:" + string(to)) // fixes the arrival order of the answers for the native replay (threaded units)
 		switch a.kind {
 		case 0:
 			return nil, 0, zzErrNet
@@ -115,9 +132,6 @@ func ZzC13() {
 			}
 			if a.invalid[k] {
 				h.Prev = invalidMark
-			}
-			if k == 0 {
-				a.firstHdr = h.ID
 			}
 			body, _ := h.MarshalBinary()
 			if a.short[k] {
@@ -143,19 +157,29 @@ func ZzC13() {
 	zz.ObserveBool("err_nil", err == nil)
 
 	// --- oracle
+	// which valid answer wins depends on the arrival order, which the property does not fix: the oracle
+	// only speaks about the set of valid answers
 	firstValid := -1
+	otherHash := false // some valid answer carries another header than the requested one
 	for i, a := range answers {
 		if a.valid && firstValid < 0 {
 			firstValid = i
+		}
+		if a.valid && a.firstHdr != reqID {
+			otherHash = true
 		}
 	}
 	zz.Assert(err != nil || res != nil, "a zero header must never come with a nil error")
 	if err == nil && res != nil {
 		zz.Reach("ok")
 		zz.Assert(firstValid >= 0, "success although no trusted peer answered validly")
-		if firstValid >= 0 {
-			zz.Assert(res.ID == answers[firstValid].firstHdr, "the header of the first valid answer (arrival order) is returned")
+		from := false
+		for _, a := range answers {
+			if a.valid && a.firstHdr == res.ID {
+				from = true
+			}
 		}
+		zz.Assert(from, "the returned header is the first header of a valid answer of a trusted peer")
 		zz.Assert(res.Prev != invalidMark, "returned header must have passed Validate")
 		zz.Assert(wantChain == "" || res.Chain == "c" || res.Chain == "C", "returned header must carry the configured chain ID")
 		if byHash {
@@ -167,8 +191,8 @@ func ZzC13() {
 		zz.Assert(err != nil, "no trusted peer answered validly: must be an error")
 	} else if err != nil {
 		zz.Reach("valid-but-error")
-		// the only legitimate reason: Get and the first valid answer carries another hash
-		zz.Assert(byHash && answers[firstValid].firstHdr != reqID, "a valid answer from a trusted peer must be returned")
+		// the only legitimate reason: Get and a valid answer that carries another hash came first
+		zz.Assert(byHash && otherHash, "a valid answer from a trusted peer must be returned")
 	}
 	var _ = header.ErrNotFound
 }
